@@ -112,7 +112,26 @@ def case_st(draw):
             "rseed": draw(st.integers(0, 2 ** 31)), "steps": steps}
 
 
-def oracle(case):
+def oracle(case, adversarial=False):
+    import fake_trx
+    from harness.core import HarnessError
+    if not hasattr(fake_trx, "random"):
+        raise HarnessError("fake_trx no longer imports random as a module: the randomness double cannot be installed")
+    real_random = fake_trx.random
+    if adversarial:
+        from harness.advrandom import AdvRandom
+        fake_trx.random = AdvRandom(case["rseed"])
+    try:
+        return _oracle(case)
+    finally:
+        fake_trx.random = real_random
+
+
+def adversarial_oracle(case):
+    return oracle(case, adversarial=True)
+
+
+def _oracle(case):
     s = Session(case["cfg"], {"metadata", "routing"}, "c10")
     try:
         n = s.n
@@ -165,4 +184,6 @@ def oracle(case):
         s.close()
 
 
-SUBS = [Sub("metadata", strategy=case_st(), oracle=oracle, examples={"quick": 1200, "thorough": 40000})]
+SUBS = [Sub("metadata", strategy=case_st(), oracle=oracle, examples={"quick": 1000, "thorough": 30000}),
+        # same generator and oracle, but the simulator's randomness comes from the adversarial double (window edges, far tails)
+        Sub("metadata_adversarial_rng", strategy=case_st(), oracle=adversarial_oracle, examples={"quick": 500, "thorough": 15000})]
